@@ -78,6 +78,8 @@ Judge(e) == CASE e.ev = "db" -> JudgeDb(e)
               [] e.ev = "impute" -> JudgeImpute(e)
               [] e.ev = "constrain" -> JudgeConstrain(e)
               [] e.ev = "parallel" -> Fails(e, "ParallelImputeAgreesWithSingle", e.same)
+              [] e.ev = "rbm" ->    Fails(e, "StageDoesNotCrash", e.crashed = "")
+                                 \o Fails(e, "BatchCompletionExact", e.changed => e.balanced_out)
               [] OTHER -> << <<e.id, "UnknownEvent">> >>
 
 TInit == i = 1 /\ dbs = <<>> /\ bad = <<>> /\ TLCSet(1, <<>>)
